@@ -19,10 +19,10 @@ TRUSTED = SC.TRUSTED + ["thread interleavings inside one work item and process-b
 ASSUMPTIONS = SC.ASSUMPTIONS + ["ensemble members draw no random numbers while running (Nelder-Mead / Powell members)"]
 META = dict(
     technique="Coq proof (pairwise commutation of configuration ops lifted over Permutation; schedule-independence of item-wise evaluation) + differential runs on /repo + trace correspondence by vm_compute",
-    level_text=("Theorems: any permutation of configuration calls (one per setting) yields the same machine state, hence the same trajectory, from any state, for every algorithm with a trivial Finalize (DE, DE2, NM); "
+    level_text=("Theorems: any permutation of configuration calls (one per setting) yields the same machine state, hence the same trajectory, from any state, for every algorithm with a trivial Finalize (DE, DE2, NM) and for Powell from every state with no pending record (config_order_irrelevant_G); "
                 "evaluating work items in any order gives every item the same energy and the same number of real calls. On /repo every run applies one configuration in several orders and DE2/ensembles under several maps "
-                "and requires identical trajectories; each DE/NM run is also replayed through the machine."),
-    level_note=("Trusted: Coq kernel+VM; harness; a schedule is modelled as a permutation of whole work items (real thread interleavings inside an item, process pools: not modelled); Powell and ensembles: differential oracle only."),
+                "and requires identical trajectories; each DE/NM/Powell run is also replayed through the machine."),
+    level_note=("Trusted: Coq kernel+VM; harness; a schedule is modelled as a permutation of whole work items (real thread interleavings inside an item, process pools: not modelled); ensembles: differential oracle only."),
     design_ref="5/C07")
 
 CFG_KINDS = ("SetObjective", "SetPenalty", "SetConstraints", "SetStrictRanges", "SetReducer", "SetLimits", "SetTermination", "SetEvalMonitor",
